@@ -7,12 +7,12 @@
  * octets the decoder has consumed.  Two entry points, one per driver kind
  * (octet source / chunk source asked for one octet).
  *
- * Sink: records what it accepts (cap/cnt).  A chunk call accepts the first
- * min(n, max_accept) octets (max_accept >= 1: everything at once, one octet at
- * a time, or anything between), an octet call accepts its octet; when rc is
- * negative every call is refused with that code instead.  Zero returns and
- * -EINTR/-EAGAIN retries are the business of sink_put_chunk (property C17),
- * not of the varint layer, and are not generated here.
+ * Sink: accepts every chunk completely and records it (cap/cnt), or - when rc
+ * is negative - refuses every call with that code.  Partial acceptance, zero
+ * returns and -EINTR/-EAGAIN retries are the business of sink_put_chunk
+ * (property C17), not of the varint layer, and are not generated here (with a
+ * partially accepting stub each to_sink proof takes minutes instead of
+ * seconds).
  */
 #ifndef STUBS_VARINT_ENDPOINTS_H
 #define STUBS_VARINT_ENDPOINTS_H
@@ -51,7 +51,6 @@ static ssize_t st_varint_chunk_source(void *driver, void *out, size_t n)
 struct st_vsink {
   unsigned char cap[ST_VSINK_CAP];
   size_t cnt;
-  size_t max_accept;
   int rc;
 };
 
@@ -63,10 +62,9 @@ static ssize_t st_varint_chunk_sink(void *driver, const void *buf, size_t n)
   }
   CHECK(n >= 1u, "stub chunk sink: never asked to take nothing");
   CHECK(s->cnt <= ST_VSINK_CAP && n <= ST_VSINK_CAP - s->cnt, "stub chunk sink: more octets than any varint has");
-  const size_t m = n < s->max_accept ? n : s->max_accept;
-  memcpy(s->cap + s->cnt, buf, m);
-  s->cnt += m;
-  return (ssize_t)m;
+  memcpy(s->cap + s->cnt, buf, n);
+  s->cnt += n;
+  return (ssize_t)n;
 }
 
 static int st_varint_octet_sink(void *driver, unsigned char octet)
